@@ -307,6 +307,17 @@ class Rule_CV11(BaseRule):
 
         functional_context = FunctionalContext(context)
 
+        # A CAST or CONVERT call with fewer than two arguments (e.g. a user
+        # defined `CONVERT(x)`) isn't a type cast which can be rewritten.
+        if current_type_casting_style in ("cast", "convert"):
+            function_arguments = self._get_children(
+                functional_context.segment.children(
+                    sp.is_type("function_contents")
+                ).children(sp.is_type("bracketed"))
+            )
+            if len(function_arguments) < 2:
+                return None
+
         # If casting style is set to consistent,
         # we use the casting style of the first segment we encounter.
         # convert_content = None
